@@ -235,8 +235,9 @@ PROPS = {
         "trusted_base": COMMON_TRUST + ["Verus 0.2026.09.13 + Z3; vstd specs; slice::partition_point stub with its documented contract",
                                         "seam R4 between Kani-proved kernel contracts and the Verus stubs; between unit c04_build (fold form) and c04_find (bit-level meaning via lemma_fold_levels)"],
         "assumptions": ["words.len() == ceil(len/64) and len <= u32::MAX (asserted by every constructor); searches: len <= 2^30 (i32 running excess); excess(p): len < 2^30",
-                        "the constructors' plumbing (moving build_bp_index's outputs into the struct fields, packing BpSelectCtx) and the "
-                        "deprecated WithSelect variant (SelectIndex::jump_to + scan_select, both under contract in C01) are not extracted; "
+                        "BalancedParens::new IS under contract (every array build_bp_index returns lands in the field the searches read, over the masked words; "
+                        "mask_final_word_in_place is a stub with its meaning); new_with_select / from_words (packing BpSelectCtx) and the deprecated WithSelect variant "
+                        "(SelectIndex::jump_to + scan_select, both under contract in C01) are not extracted; "
                         "storage W monomorphised to Vec<u64> (borrowed storage runs the same text); simd (SSE4.1/NEON) builders not covered"],
     },
     "C21": {
